@@ -20,6 +20,10 @@ Line-protocol driver of C10 (imports the model only).  One reply line per reques
   perm     d                      -> in: .. | out: .. | roundtrip=<0/1>   generated permute lists of rsample
   unsq     nb dim                 -> <int> | reject   generated unsqueeze dimension
   divf     c                      -> <rat>            generated `__truediv__` factor
+  gpair    n b | S_0..S_{b-1} | k bs.. | k es..  -> <k x k rows>   generated advanced branch under paired index lists
+  gell     S | lenIdx meanDim numEll | idx-token(x) -> pre=..;br=..;rows=..;cols=..;<rows>  generated handling of `(..., x, ...)`
+  initshape k m1..mk | j c1..cj   -> loc: .. | cov: .. | batch: ..   generated `__init__` shapes (lazy branch)
+  permidx  d | o_0..o_d           -> in: .. | out: ..   multi-index read through the generated permutes
 
 All numeric requests (`logprob kl rsample affine sum jitter conf bcast` and the ones above) are evaluated through the
 REGENERATED definitions of `Gen/MVN.lean` (namespace `GenMVN`); `index slice marg` through the hand-written model.
@@ -27,6 +31,7 @@ Matrices travel as `rows cols v11 v12 …` with exact rationals.
 idx-tokens:  I i | S start stop step | E | L len i1..ilen      (N = None)
 -/
 import GPVerif.Model.MVN
+import GPVerif.Model.MVNShape
 import GPVerif.Gen.MVN
 import GPVerif.Model.Proto
 open Proto MVN
@@ -287,6 +292,91 @@ def doDivf (ts : List String) : Option String :=
     some (showRat (GenMVN.divFactor c))
   | _ => none
 
+/-- Split a token list at every `|`. -/
+def splitBars (ts : List String) : List (List String) :=
+  ts.foldr (fun t acc => if t = "|" then [] :: acc else match acc with
+    | [] => [[t]]
+    | h :: r => (t :: h) :: r) [[]]
+
+def showNats (l : List Nat) : String := " ".intercalate (l.map toString)
+
+/-- `gpair n b | S_0 … S_{b-1} | k bs… | k es…`: the generated advanced branch under paired index lists. -/
+def doGpair (ts : List String) : Option String :=
+  match splitBars ts with
+  | [[n, b], mats, bsT, esT] => do
+    let n ← n.toNat?
+    let b ← b.toNat?
+    let rec take (k : Nat) (ts : List String) (acc : Array (DMat n n Q)) : Option (Array (DMat n n Q)) :=
+      match k with
+      | 0 => some acc
+      | k + 1 => do
+        let (r, c, S, rest) ← takeMat? ts
+        if r ≠ n ∨ c ≠ n then none else take k rest (acc.push (mat n n S))
+    let Ss ← take b mats #[]
+    let bs ← parseNats? (bsT.drop 1)
+    let es ← parseNats? (esT.drop 1)
+    if bs.length ≠ es.length then none else
+    let cov : Nat → Nat → Nat → Q := fun bi r c =>
+      match Ss[bi]? with
+      | some S => if h : r < n ∧ c < n then S.toMatrix ⟨r, h.1⟩ ⟨c, h.2⟩ else 0
+      | none => 0
+    match covSelPaired cov bs es (GenMVN.getitemCov Br.advanced) with
+    | some f =>
+      let k := bs.length
+      let rows := (List.range k).map fun i => (List.range k).map fun j => showRat (f i j)
+      some (s!"{k} {k} " ++ " ".intercalate rows.flatten)
+    | none => some "nosel"
+  | _ => none
+
+/-- `gell S | lenIdx meanDim numEll | idx-token(x)`: the generated pre-pass / dispatch / ellipsis branch for `(..., x, ...)`. -/
+def doGell (ts : List String) : Option String := do
+  let (n, c, S, r1) ← takeMat? ts
+  if n ≠ c then none else
+  match r1 with
+  | "|" :: l :: d :: ne :: "|" :: rest => do
+    let l ← l.toNat?
+    let d ← d.toNat?
+    let ne ← ne.toNat?
+    let idx ← parseIdx rest
+    match idx with
+    | [x] =>
+      match GenMVN.getitemPre l d ne with
+      | none => some "pre=reject"
+      | some l' =>
+        let br := GenMVN.getitemDispatch l' d true Idx.ellipsis
+        match covSelPositionsRestEllipsis n x (GenMVN.getitemCov br) with
+        | some (rs, cs) =>
+          match subMat? (mat n n S) rs.positions cs.positions with
+          | some M => some s!"pre={l'};br={brName br};rows={showSelPos rs};cols={showSelPos cs};{showMat M}"
+          | none => some s!"pre={l'};br={brName br};out-of-range"
+        | none => some s!"pre={l'};br={brName br};nosel"
+    | _ => none
+  | _ => none
+
+/-- `initshape k m1..mk | j c1..cj`: generated `__init__` shapes. -/
+def doInitShape (ts : List String) : Option String := do
+  let (l, r) := splitBar ts
+  match l, r with
+  | _ :: ms, _ :: cs => do
+    let ms ← parseNats? ms
+    let cs ← parseNats? cs
+    if ms.length < 1 ∨ cs.length < 2 then none else
+    match GenMVN.initShapes ms cs, GenMVN.initBatchShape ms cs with
+    | some (ls, vs), some bs => some s!"loc: {showNats ls} | cov: {showNats vs} | batch: {showNats (GenMVN.initDistBatch ms cs bs)}"
+    | _, _ => some "reject"
+  | _, _ => none
+
+/-- `permidx d | o_0 … o_d`: the multi-indices read through the two generated `permute`s. -/
+def doPermIdx (ts : List String) : Option String := do
+  let (l, r) := splitBar ts
+  match l with
+  | [d] => do
+    let d ← d.toNat?
+    let o ← parseNats? r
+    if o.length ≠ d + 1 then none else
+    some ("in: " ++ showNats (permuteIdx (GenMVN.rsamplePermIn d) o) ++ " | out: " ++ showNats (permuteIdx (GenMVN.rsamplePermOut d) o))
+  | _ => none
+
 def step (line : String) : String :=
   match tokens line with
   | cmd :: ts =>
@@ -309,6 +399,10 @@ def step (line : String) : String :=
       | "perm" => doPerm ts
       | "unsq" => doUnsq ts
       | "divf" => doDivf ts
+      | "gpair" => doGpair ts
+      | "gell" => doGell ts
+      | "initshape" => doInitShape ts
+      | "permidx" => doPermIdx ts
       | _ => none
     r.getD "bad-request"
   | [] => "bad-request"
